@@ -7,7 +7,7 @@ RULE = ("mutation-based stream over valid SYN/SYN+ACK/ACK packets (byte flips, t
         "non-ASCII) given to fingerprint_http; every call under a 5 s alarm and a 4 GB address-space limit; outcome classes ok / "
         "PacketError / other:<type> / TIMEOUT (incl. 64 KB payloads with long runs of blanks / colons / CRs / brackets, 4000 headers, 2500 continuation lines); where the model can dissect the input the ok/PacketError class is compared with it; "
         "exhaustive: all option areas of length 4 over {0,1,2,3,4,5,8,255} (4096) and all (kind,len) prefixes")
-GEN_TIE = ['options', 'http', 'httpx']     # TCPOptions.parse (the option walker's while loop) is also TRANSLATED from /repo's source on every run and proved equal to the model
+GEN_TIE = ['options', 'select', 'http', 'httpx']     # TCPOptions.parse (the option walker's while loop) is also TRANSLATED from /repo's source on every run and proved equal to the model
 ASSUMPTIONS = ["byte strings Scapy itself refuses to dissect (exception inside scapy.layers) are outside the quantifier and counted separately",
                "work/memory proportionality is proved on the model (fuel and layout-length theorems); on the implementation only hangs and gross blow-ups are detectable"]
 EXHAUSTIVE = {"all option areas of length 4 over the alphabet {0,1,2,3,4,5,8,255}": True, "all (kind, length) two-byte prefixes 256x256 (thorough)": True}
@@ -130,6 +130,17 @@ def generate(R, tier):
                     spec = {"v": 4, "ttl": 60, "id": 0 if fl == 0x12 else 1, "df": True, "flags": fl, "ack": 7 if fl == 0x12 else 0, "win": win,
                             "opts": W.o_mss(mss) + ("" if fl == 0x12 else W.o_sok() + W.o_ts(5, 0) + "01" + W.o_ws(7))}
                     yield {"stream": "reaches-window-test", "v": 4, "raw": W.build(spec).hex(), "syn_mss": syn}
+    # packets that match the database's records in EVERY combination of the tolerated differences (quirks: df / id+ gone, id- / ecn added; TTL above the
+    # signature's or further below it than max_dist) - each difference alone and all of them together
+    for fl in (2, 0x12):
+        for df in (True, False):
+            for pid in (0, 1):
+                for tos in (0, 1):
+                    for ttl in (64, 60, 20, 29, 28, 65, 100, 255, 1):
+                        for ece in (0, 0x40):
+                            spec = {"v": 4, "ttl": ttl, "id": pid, "df": df, "tos": tos, "flags": fl | ece, "ack": 7 if fl == 0x12 else 0,
+                                    "win": 1460 * (10 if fl == 0x12 else 20), "opts": W.o_mss(1460) + ("" if fl == 0x12 else W.o_sok() + W.o_ts(5, 0) + "01" + W.o_ws(7))}
+                            yield {"stream": "every-fuzzy-combination", "v": 4, "raw": W.build(spec).hex()}
     # messages that MATCH a record naming a software, with every kind of User-Agent / Server value (absent, empty, blank, other)
     for eol in (b"\r\n", b"\n"):
         for ua in (None, b"", b" ", b"\t", b"curl/7.81", b"CURL", b"x", b"\xff"):
